@@ -82,6 +82,34 @@ struct Interp
 		m.T = t;
 	}
 
+	struct DuePair
+	{
+		std::unique_ptr<asio::high_resolution_timer> a, b;
+		int64_t t0 = 0, exp_a = 0, exp_b = 0;
+		int done[2] = {0, 0};
+		int order = 0; // first to complete: 1 = a, 2 = b
+	};
+	std::vector<std::unique_ptr<DuePair>> pairs;
+	static constexpr int64_t k_pair_back[4] = {0, 0, 1, 5000000};
+	void on_pair(int k, int which, boost::system::error_code const& ec)
+	{
+		int64_t const t = sample("timer handler");
+		++ctx.handlers;
+		DuePair& dp = *pairs[size_t(k)];
+		ctx.tr.rec("pair", {k, which, ec.value()}, {t});
+		if (dp.done[which]++ > 0) { fail("timer.dup", "a wait handler was invoked twice"); return; }
+		if (ec) { fail("timer.spurious_abort", "a wait on a timer armed for a passed instant completed with " + ec.message()); return; }
+		if (t != dp.t0)
+			fail("timer.time", "a wait started on a timer armed for the current or an earlier instant (" + std::to_string(which ? dp.exp_b : dp.exp_a)
+				+ ", started " + std::to_string(dp.t0) + ") completed at " + std::to_string(t));
+		if (!dp.order) dp.order = which + 1;
+		// a (armed first) goes first unless b's expiry is strictly earlier
+		bool const a_first = dp.exp_a <= dp.exp_b;
+		if (dp.done[0] && dp.done[1] && dp.order != (a_first ? 1 : 2))
+			fail("timer.order", std::string("two timers armed and waited on in the same handler, for ") + std::to_string(dp.exp_a) + " and " + std::to_string(dp.exp_b)
+				+ " at " + std::to_string(dp.t0) + ": the " + (a_first ? "second" : "first") + " one completed first");
+	}
+
 	void on_timer(int hid, boost::system::error_code const& ec)
 	{
 		int64_t const t = sample("timer handler");
@@ -167,7 +195,7 @@ struct Interp
 						&& (o.expiry < w.expiry || (o.arm_seq < w.arm_seq && &o < &w)))
 						fail("timer.order", "timer " + std::to_string(w.timer) + " (expiry " + std::to_string(w.expiry)
 							+ ") completed before timer " + std::to_string(o.timer) + " (expiry " + std::to_string(o.expiry)
-							+ ") which expires earlier / was armed first");
+							+ ") which expires earlier / was armed first [handlers " + std::to_string(w.hid) + " and " + std::to_string(o.hid) + ", idle moment " + std::to_string(w.batch) + ", ranks " + std::to_string(w.rank) + " and " + std::to_string(o.rank) + "]");
 			if (w.expiry <= w.start) ctx.hit("wait_on_passed_expiry");
 		}
 		else ctx.hit("wait_aborted");
@@ -345,6 +373,27 @@ struct Interp
 				inline_dispatch.erase(hid);
 			}
 		}
+		else if (o.op == "due_pair")
+		{
+			// two fresh timers armed one after the other for the current instant or an earlier one, each waited on at once:
+			// no idle moment lies between arming and waiting, so both waits are pending together and complete in
+			// expiry-then-arming order, at the current time, with success (outside the model: they move no clock)
+			int const k = int(pairs.size());
+			pairs.emplace_back(new DuePair);
+			DuePair& dp = *pairs.back();
+			dp.t0 = now;
+			int64_t const back_a = k_pair_back[uint64_t(o.b) % 4], back_b = k_pair_back[uint64_t(o.c) % 4];
+			asio::io_context& ioc_a = ioc(o.a), & ioc_b = ioc(o.a + (o.d & 1));
+			dp.a.reset(new asio::high_resolution_timer(ioc_a));
+			dp.b.reset(new asio::high_resolution_timer(ioc_b));
+			dp.exp_a = now - back_a; dp.exp_b = now - back_b;
+			if (o.d & 2) dp.a->expires_after(duration(-back_a)); else dp.a->expires_at(time_point(duration(dp.exp_a)));
+			dp.a->async_wait([this, k](boost::system::error_code const& ec) { on_pair(k, 0, ec); });
+			if (o.d & 4) dp.b->expires_at(time_point(duration(dp.exp_b))); else dp.b->expires_after(duration(-back_b));
+			dp.b->async_wait([this, k](boost::system::error_code const& ec) { on_pair(k, 1, ec); });
+			ctx.tr.rec("due_pair", {k}, {now, back_a, back_b});
+			ctx.hit("due_pair");
+		}
 		else if (o.op == "stop")
 		{
 			sim->stop();
@@ -461,6 +510,9 @@ struct Interp
 				fail("clock.lost", "timer wait handler " + std::to_string(w.hid) + " never ran");
 			}
 		ctx.sim_ns = now_ns();
+		for (auto const& dp : pairs)
+			if (dp->done[0] != 1 || dp->done[1] != 1) { fail("timer.lost", "a wait on a timer armed for the current or an earlier instant never completed"); break; }
+		pairs.clear();
 		for (auto& t : timers) t.reset();
 		// destroying timers may post aborts that never run: fine, simulation ends
 		ios[0].reset();
@@ -514,6 +566,22 @@ struct ClockEngine : Engine
 			else o.at = -int64_t(rng.range(1, 3));
 			++slots;
 			p.ops.push_back(o);
+		}
+		// pairs of fresh timers armed for now or the past and waited on at once (their handlers are no slots)
+		if (rng.chance(0.3))
+		{
+			int const np = int(rng.range(1, 2));
+			for (int i = 0; i < np; ++i)
+			{
+				Op o;
+				o.op = "due_pair";
+				o.a = int64_t(rng.below(2)); o.b = int64_t(rng.below(4)); o.c = int64_t(rng.below(4)); o.d = int64_t(rng.below(8));
+				double const u = rng.unit();
+				if (u < 0.3 || slots == 0) o.at = 0;
+				else if (u < 0.9) o.at = int64_t(rng.range(1, slots));
+				else o.at = -int64_t(rng.range(1, 3));
+				p.ops.push_back(o);
+			}
 		}
 		return p;
 	}
